@@ -65,18 +65,57 @@ def site_key(fid, kind):
     return f"{fid}:{kind}"
 
 
+def anchors(facts, fns):
+    """private helpers and closures are keyed by the public functions / trait impls that reach them, so that renaming
+    or extracting a helper does not change a triage key"""
+    ids = {f["id"] for f in fns}
+    callers = {}
+    for f in fns:
+        for x in walk(f["body"]):
+            t = None
+            if x.get("k") == "Call":
+                t = (x.get("res") or {}).get("fn") or x.get("fn")
+            elif x.get("k") == "Closure":
+                t = x["id"]
+            if t in ids and t != f["id"]:
+                callers.setdefault(t, set()).add(f["id"])
+
+    def anchored(f):
+        return bool(f.get("impl") and f["impl"].get("trait")) or (f.get("pub") and f.get("kind") != "Closure")
+
+    by_id = {f["id"]: f for f in fns}
+    memo = {}
+
+    def up(fid, seen=()):
+        if fid in memo:
+            return memo[fid]
+        f = by_id[fid]
+        if anchored(f) or fid in seen:
+            return {fid}
+        out = set()
+        for c in callers.get(fid, ()):
+            out |= up(c, seen + (fid,))
+        if not out:
+            out = {fid}
+        memo[fid] = out
+        return out
+    return {f["id"]: "|".join(sorted(up(f["id"]))) for f in fns}
+
+
 @rule("T3", ["C06"], floor=10, doc="every panicking construct (panic!/assert!/unreachable!, unwrap/expect, time arithmetic, length-checked slice "
       "copies) on a deserialization path is triaged in spec/panic_sites.json as data-independent; an untriaged site is reported")
 def t3(facts, tier):
     triage = {t["key"]: t["reason"] for t in json.load(open(os.path.join(SPEC, "panic_sites.json")))}
     seen = {}
-    for f in reader_fns(facts):
+    rf = reader_fns(facts)
+    anc = anchors(facts, rf)
+    for f in rf:
         for x in walk(f["body"]):
             if x.get("k") != "Call":
                 continue
             k = panic_kind(x)
             if k:
-                key = site_key(f["id"], k)
+                key = site_key(anc[f["id"]], k)
                 seen.setdefault(key, (f, x, 0))
                 seen[key] = (seen[key][0], seen[key][1], seen[key][2] + 1)
     for key, (f, x, n) in sorted(seen.items()):
